@@ -7,6 +7,11 @@
   (`yieldEv`: the application reacts, possibly writing), then `_regular()`.  The trace (newest
   first) records every `sendall` (`.wr`), every failed `sendall` (`.wrFail`), every event handed
   to the application (`.ev`) and the result token of every application call (`.res`).
+
+  Companions: `C14_Run.lean` — the same over a whole run `Core.runAll` (Ping ⇒ exactly one Pong,
+  Pong ⇒ Ping, counting; `exactly_one_pong_per_ping`, `pong_iff_ping`); `C14_E2E.lean` — a valid
+  stream with `k` Pings gets exactly `k` Pongs, payloads equal, in order; `C18_Core.lean` — Pong and
+  event are produced at the tick of the `recv` that completed the Ping.
 -/
 import Lomond.Proofs.Pong
 
